@@ -3,6 +3,7 @@ package world
 import (
 	"bufio"
 	"bytes"
+	"context"
 	"fmt"
 	"net/http"
 	"net/http/httptest"
@@ -34,6 +35,10 @@ type Resp struct {
 	Stack    string
 	ParseErr error
 	Info     []Informational // interim 1xx responses, in order
+	// Aborted: the handler ended with panic(http.ErrAbortHandler) — net/http's server then drops the
+	// connection without completing the response (what httputil.ReverseProxy does when the upstream
+	// breaks off mid-body). Status, Header and Body are what had been sent until then.
+	Aborted bool
 }
 
 // Parse turns the description into the *http.Request a Go server would hand to a handler.
@@ -114,6 +119,8 @@ func (w *clientWriter) WriteHeader(code int) {
 	w.rec.WriteHeader(code)
 }
 
+var serverForContext = &http.Server{}
+
 // ServeHTTP runs an already built request.
 func ServeHTTP(h http.Handler, req *http.Request) (out *Resp) {
 	rec := httptest.NewRecorder()
@@ -125,12 +132,18 @@ func ServeHTTP(h http.Handler, req *http.Request) (out *Resp) {
 				if sched.IsAbort(p) {
 					panic(p)
 				}
+				if p == http.ErrAbortHandler {
+					out.Aborted = true
+					return
+				}
 				out.Panic = p
 				buf := make([]byte, 8192)
 				out.Stack = string(buf[:runtime.Stack(buf, false)])
 			}
 		}()
-		h.ServeHTTP(cw, req)
+		// as under net/http's server: handlers (httputil.ReverseProxy) look for this key to decide whether
+		// aborting the response by panic(http.ErrAbortHandler) is available to them
+		h.ServeHTTP(cw, req.WithContext(context.WithValue(req.Context(), http.ServerContextKey, serverForContext)))
 	}()
 	out.Info = cw.Info
 	// the header snapshot taken when the status line was written: what a client receives
